@@ -16,6 +16,7 @@ from __future__ import annotations
 
 import collections
 from collections.abc import Iterable, Sequence
+import copy
 import dataclasses
 import enum
 import itertools
@@ -649,7 +650,14 @@ class ConfusionMatrixAggFn(base.AggregateFn):
     iter_acc = iter(states)
     result = next(iter_acc)
     for accumulator in iter_acc:
-      result += accumulator
+      # A state that never saw a batch is None (see create_state).
+      if accumulator is None:
+        continue
+      if result is None:
+        # Only the first state may be modified and returned.
+        result = copy.deepcopy(accumulator)
+      else:
+        result += accumulator
     return result
 
   def get_result(self, state: ConfusionMatrixAggState) -> Any:
